@@ -8,7 +8,7 @@
              (contractions.py:198-221, 237-259, 273-298, 314-358, 538-571), assign_norm_cont
              (contractions.py:503-524), and the USER changing the error state (np.seterr).
    STEP    : a public call leaves the world as it was and its outcome is [result_of] applied to the
-             function, the error state in force and the VALUES of the arguments; an accepted update
+             function, the caller's error state and the VALUES of the arguments; an accepted update
              replaces exactly one parameter and leaves norm_cont STALE (the code refreshes it only in
              assign_norm_cont and in __init__, contractions.py:144-150); assign_norm_cont stores
              [norm_of] of the current parameters.
@@ -218,7 +218,7 @@ Definition setter (fld : field) : shell -> val -> option shell :=
 (* the machine, for ANY deterministic library: [result_of], [norm_of], [window] are parameters          *)
 (* ------------------------------------------------------------------------------------------------ *)
 Section Machine.
-  (* what public function [f] computes from the error state in force and the values of its arguments *)
+  (* what public function [f] computes from the caller's error state and the values of its arguments *)
   Variable result_of : Z -> errstate -> list val -> result.
   (* the normalisation constants of a shell with the given angmom, coord, exps, coeffs *)
   Variable norm_of : val -> val -> val -> val -> val.
@@ -237,7 +237,9 @@ Section Machine.
     | Call f args =>
         let old := w_err w in
         let w1 := with_err w (window f old) in                    (* state switched on entry ... *)
-        let r := result_of f (w_err w1) (map (arg_value w1) args) in
+        (* the outcome is a function of the CALLER's error state (part of a function may run before the
+           window opens: point_charge_integral in electrostatic_potential.py:139) and the argument values *)
+        let r := result_of f old (map (arg_value w1) args) in
         (with_err w1 old, OCall r)                                 (* ... and put back, returning or raising *)
     | Update s fld v =>
         match nth_error (w_shells w) s with
